@@ -102,6 +102,15 @@ fixed("C20", "C20:ctrl-i-is-tab", "0a4138b",
       "config name C-i mapped to <Ctrl-i>, a name the decoder never produces (0x09 is <TAB>)",
       [{"kind": "config", "name": "C-i"}])
 
+fixed("C02", "C02:array-taller-than-terminal", "4b0533d",
+      "FullscreenWindow wrote every row beyond the terminal height onto the last line",
+      [{"rows": 2, "cols": 3, "hide_cursor": True, "steps": [
+          {"op": "render", "array": ["a", "b", "c", "d"], "as": "list", "cursor": [0, 0]}]}])
+fixed("C02", "C02:row-longer-than-terminal", "4b0533d",
+      "FullscreenWindow let rows longer than the width wrap (and scroll on the last line)",
+      [{"rows": 2, "cols": 3, "hide_cursor": True, "steps": [
+          {"op": "render", "array": ["abcde", "fghij"], "as": "list", "cursor": [1, 1]}]}])
+
 known("C03", "C03:prefix-then-undecodable-byte",
       "get_key raises UnicodeDecodeError for a table-sequence prefix (e.g. ESC) followed by a byte >= 0x80 "
       "that does not decode: ESC + any 8-bit byte under ascii, ESC + a UTF-8 lead/continuation byte under utf-8",
